@@ -151,10 +151,11 @@ class DiagMat(Val):
 class Bag(Val):
     """Unordered/sorted collection of values drawn from `elem` (a Choice over generic elements)."""
 
-    def __init__(self, elem: Expr, size: Optional[Expr] = None, is_sorted=False, src=None, parts=None):
+    def __init__(self, elem: Expr, size: Optional[Expr] = None, is_sorted=False, src=None, parts=None, direction=None):
         self.elem = elem
         self.size = size
         self.is_sorted = is_sorted
+        self.direction = direction if is_sorted else None  # "asc" | "desc" | None (order not known)
         self.src = src
         self.parts = parts  # list of Arr the bag was concatenated from (for per-part facets)
 
